@@ -278,6 +278,17 @@ def _run_history_here(ctx, hist, fresh=True):
         ctx.calls()
         ctx.valid()
         want = _BASE[(idx, legacy)]
+        if isinstance(res, list) and res[:1] == ['BROKEN']:
+            # a composite event found its own invariant broken (this does
+            # not depend on the baseline: it may be broken there as well)
+            ok = False
+            ctx.outcome('event-invariant-broken')
+            ctx.violation('event-invariant|{}'.format(idx),
+                          'event "{}" (after {}): {}'.format(
+                              name, names[:pos], short(res[1:], 400)),
+                          {'kind': 'hist', 'hist': list(hist)},
+                          'invariant holds', short(res[1:], 400))
+            break
         if res != want:
             ok = False
             ctx.outcome('history-dependent')
